@@ -36,15 +36,18 @@ CHECKS = {
                       'the precedence-climbing glue parse_p12..parse_p2 (slice patterns; closures) and macro substitution / defined() in conditions. Assumed: u64::from(bool).',
     },
     'C13': {
-        'engine': 'K',
-        'technique': 'Kani complete harnesses per operator of the constant evaluator with evaluate_constexpr stubbed (modular induction step)',
-        'level_text': 'Complete symbolic proof (Kani/CBMC, loop-free, full bit-width operands of every Constant kind, enum-wrapped or not) that evaluate_operator returns the value '
-                      'the statement defines for 23 of its 26 operators and never aborts; sub-expression evaluation is cut by a stub so the result holds at any expression depth; '
-                      'Constant::to_uint64 (array sizes, unroll counts, ...) yields exactly the non-negative integer values.',
-        'level_note': 'NOT yet decided: * / % (equivalence of multiplier/divider circuits does not finish in CBMC; alternative SMT back ends are being sized), evaluate_cast and the cast arm of evaluate_constexpr '
-                      '(harnesses exist, too slow for a registered tier so far). Assumed (harness preconditions, not proved of the typer): arity matches the operator; operands are all of one enum type or none; '
-                      'both operands have the same kind; ~ only on integers. Bool operands are left out of < <= > >= because Kani 0.68 mis-models the ordering of bool. '
-                      'Not covered: that every constant-demanding syntactic position routes through evaluate_constexpr. CBMC IEEE-754 float model; Module::default() as ambient module.',
+        'engine': 'K+V',
+        'technique': 'Kani complete harnesses per operator / cast target of the constant evaluator (sub-evaluation stubbed) + Verus contract on the routing function evaluate_constexpr',
+        'level_text': 'Verus (unbounded): evaluate_constexpr composes the value of a constant expression from its parts exactly as the statement says (literal = its value, named constant = recorded value, '
+                      'cast node = conversion of the operand value after removing the type modifier, operator node = operator applied to the operands, anything else not constant) and leaves the module unchanged. '
+                      'Kani (complete, loop-free, full bit-width operands of every Constant kind, enum-wrapped or not): evaluate_operator returns the value the statement defines for 24 of its 26 operators and never aborts; '
+                      'for / and % the divisors 0, 1, -1 (all-ones) with any dividend; evaluate_cast to bool/int/uint/half/float/double and to enums with int / uint underlying type from every source kind incl. enum constants; '
+                      'Constant::to_uint64 yields exactly the non-negative integer values. Sub-expression evaluation is cut by stubs, so the results hold at any expression depth.',
+        'level_note': 'Bounded only (thorough tier, never counted): general quotient / remainder values (integer operands < 2^12) and untyped-literal multiplication (< 2^20) - equivalence of divider / 128-bit multiplier circuits '
+                      'does not finish in any installed back end (cadical, kissat 40 min, z3 and cvc5 fail inside CBMC). Assumed (harness preconditions, not proved of the typer): arity matches the operator; operands are all of one enum type or none; '
+                      'both operands have the same kind; ~ only on integers; the type / enum registries hold the layers the cast harness stubs for their getters. Bool operands are left out of < <= > >= because Kani 0.68 mis-models the ordering of bool. '
+                      'In the Verus unit evaluate_operator / evaluate_cast are uninterpreted functions of their arguments and registry getters are assumed. Float16 is stored as f32 (no rounding to half is required or checked). '
+                      'Not covered: that every constant-demanding syntactic position routes through evaluate_constexpr. CBMC IEEE-754 float model.',
     },
 }
 
@@ -77,7 +80,7 @@ CHECKS['C08'] = {
     'technique': 'Verus panic/overflow/bounds/termination obligations of every function under contract (roll-up of all units)',
     'level_text': 'Unbounded deductive proof (Verus) that no panic!, failed assert!/assert_eq!, index out of bounds, arithmetic overflow or division by zero is reachable in any of the '
                   'functions under contract (listed in the evidence file) for inputs satisfying the stated preconditions, and that their loops terminate where a decreases clause is given.',
-    'level_note': 'Partial by construction: covers only the functions under contract (about 45 of the code base), under their preconditions; the other panic sites, stack depth and the time bound of compile() are not decided. '
+    'level_note': 'Partial by construction: covers only the functions under contract (about 80, listed in the evidence file), under their preconditions; the other panic sites, stack depth and the time bound of compile() are not decided. '
                   'Two pointer-range debug_asserts in TokenStream::next are outside the verifier memory model (assumed). Termination of get_type_layout/has_same_offsets recursion is not verified.',
 }
 
